@@ -11,8 +11,14 @@ Host == <<104>>                              \* "h"
 RepQ == <<107, 61, 49, 38, 107, 61, 50>>          \* "k=1&k=2": a repeated key, to be carried over verbatim
 RepR == <<116, 61, 120, 38, 116, 61, 121>>        \* "t=x&t=y"
 BasePaths == {<<>>, <<SL>>, <<SL, a>>, <<SL, a, SL>>, <<SL, a, SL, b>>, <<SL, a, SL, b, SL>>, <<SL, a, SL, b, SL, 99>>, <<SL, a, SL, SL, b>>}
+(* authorities with userinfo and port, an IP literal with port, and the scheme's default port written out *)
+UserPort == <<117, 58, 112, 64, 104, 58, 56, 48, 56, 48>>      \* "u:p@h:8080"
+V6Port == <<91, 58, 58, 49, 93, 58, 56, 49>>                  \* "[::1]:81"
+UserOnly == <<117, 64, 104>>                                   \* "u@h"
 Bases == {[scheme |-> <<Scheme>>, auth |-> <<Host>>, path |-> p, query |-> q, frag |-> f] :
             p \in BasePaths, q \in {<<>>, << <<113>> >>, << RepQ >>}, f \in {<<>>, << <<102>> >>}}
+         \cup {[scheme |-> <<Scheme>>, auth |-> <<au>>, path |-> p, query |-> q, frag |-> <<>>] :
+            au \in {UserPort, V6Port, UserOnly}, p \in {<<>>, <<SL, a, SL, b>>}, q \in {<<>>, << <<113>> >>}}
 SegAlpha == {<<a>>, <<b>>, <<DOT>>, <<DOT, DOT>>, <<>>}
 RECURSIVE SegSeqs(_)
 SegSeqs(n) == IF n = 0 THEN {<<>>} ELSE LET s == SegSeqs(n - 1) IN s \cup {Append(x, g) : x \in {y \in s : Len(y) = n - 1}, g \in SegAlpha}
